@@ -2,6 +2,7 @@
   C14 — validating lazy APIs never hand out malformed fragments.
 -/
 import SonicModel.Thm.C10
+import SonicModel.Lemmas.GrammarPad
 namespace Sonic.Thm.C14
 open Sonic Gen Impl Spec
 
@@ -50,5 +51,16 @@ example : (getEntry true ex1 [.key [97]]).coarse = .other := by decide +kernel
 /-- `{"b":2,"a":1}x` : trailing garbage is not looked at -/
 def ex2 : Buf := #[123, 34, 98, 34, 58, 50, 44, 34, 97, 34, 58, 49, 125, 120]
 example : getEntry true ex2 [.key [97]] = .found 11 12 := by decide +kernel
+
+/-- **"bytes after the returned value are not required to be valid"**: whether a span is a well-formed value (at either
+    strength) does not depend on what follows it — a value that the specification reads in `b ++ suf` and that ends inside `b` is
+    a value of `b` alone, and of `b ++ suf'` for every continuation `suf'` whose first byte cannot extend a number token (a
+    digit, `.`, `e`, `E` directly behind a number would be part of it: maximal munch, the one way in which what follows matters).
+    (`Lemmas/GrammarPad.lean`: `value_prefix`, `value_extend`) -/
+theorem value_does_not_depend_on_what_follows (s : Bool) (b suf suf' : Buf) (f w e : Nat)
+    (h : Spec.value s f (b ++ suf) w = .ok e) (he : e ≤ b.size) (ht : GrammarPad.Term suf') :
+    Spec.value s f b w = .ok e ∧ Spec.value s f (b ++ suf') w = .ok e := by
+  have h1 := (GrammarPad.value_prefix s b suf f).1 w e h he
+  exact ⟨h1, (GrammarPad.value_extend s b suf' ht f).1 w e h1⟩
 
 end Sonic.Thm.C14
